@@ -182,6 +182,16 @@ def apply_tamper(content, tamper, rng, table):
     if tamper is None:
         return content
     c = copy.deepcopy(content)
+    if tamper == "unloadable_text":
+        # a file under the right name whose TEXT cannot be loaded at all: cut off in the middle, empty, not JSON, or
+        # (an envelope) a payload that is not base64. Loading fails; nothing quietly steps over such a file.
+        text = json.dumps(c)
+        kinds = ["cut", "empty", "not_json"] + (["payload_not_base64"] if "payload" in c else [])
+        kind = rng.choice(kinds)
+        if kind == "payload_not_base64":
+            c["payload"] = c["payload"][:7] + "!" + c["payload"][7:]
+            return c
+        return {"cut": text[:len(text) // 2], "empty": "", "not_json": "{not json"}[kind]
     if tamper == "content":
         r = edit_payload_leaf(c, rng)
         return r[0] if r else c
@@ -206,7 +216,13 @@ def apply_tamper(content, tamper, rng, table):
                 s["sig"] = base64.b64encode(bytes(raw)).decode()
             else:
                 f = "signature" if "signature" in s else "sig"
-                s[f] = mutate_scalar(s[f], rng, hex_case=False)
+                if rng.random() < 0.5:
+                    # damaged into something that is not a hex string at all (blanked, overwritten, cut to an odd
+                    # length, white space around it): a value that verifies for nobody - the file must merely not count
+                    v = s[f]
+                    s[f] = rng.choice(["", "zz" + v[2:], v[:-1], " " + v, v + "\n", "0x" + v, v[:len(v) // 2] + "--" + v[len(v) // 2:]])
+                else:
+                    s[f] = mutate_scalar(s[f], rng, hex_case=False)
         return c
     if tamper == "unsigned":
         c["signatures"] = []
@@ -586,7 +602,11 @@ def edit_signature(content, rng):
             sigs[i]["sig"] = base64.b64encode(bytes(raw)).decode()
         else:
             # (not the letter case of the hex digits: the value of a signature is the bytes the digits stand for)
-            sigs[i][field] = mutate_scalar(sigs[i][field], rng, hex_case=False)
+            if rng.random() < 0.3:
+                v = sigs[i][field]
+                sigs[i][field] = rng.choice(["", "zz" + v[2:], v[:-1], " " + v, v + "\n", "0x" + v])
+            else:
+                sigs[i][field] = mutate_scalar(sigs[i][field], rng, hex_case=False)
     return c, {"sig_edit": kind, "index": i}
 
 
